@@ -2,7 +2,7 @@
 
    Mirrors, one for one:
      ArithmeticMixin.__lt__/__le__/__gt__/__ge__ (and the reflected call Python makes when the left
-       operand has no such method), ComparisonAssertion.__lt__/...           -> cmp_nodes, chain, denote
+       operand has no such method), ChainedComparison.__lt__/... (assertion.py)  -> cmp_nodes, chain, denote
      GreaterThanLessThan[Equal]Assertion / CompoundAssertion._instance_for_arguments -> holds
      AbstractPriorModel.add_assertion                                        -> attached
      AbstractPriorModel.check_assertions                                     -> check_all / check_level
@@ -123,15 +123,47 @@ Section Gate.
     | _, _ => if arith_like x || arith_like y then Some (cmp_build op x y) else None
     end.
 
-  (* first op other, where first is an assertion object; None: Python raises TypeError *)
-  Definition chain (first : assertion) (op : cmpop) (other : node V) : option assertion :=
+  (* ---------- first op other, where first is an assertion object (ChainedComparison, since 33cdc7f) ----------
+     Every assertion object remembers the lowest and the greatest operand of its chain (`_left`, `_right`);
+     < / <= compare the new operand with the greatest and put it above, > / >= compare it with the lowest and
+     put it below.  None: the comparison is not an assertion object / Python raises TypeError. *)
+  Definition ends_of (a : assertion) : option (node V * node V) :=
+    match a with ALt l g | ALe l g => Some (l, g) | _ => None end.
+
+  Definition chain (first : assertion) (e : node V * node V) (op : cmpop) (other : node V)
+    : option (assertion * (node V * node V)) :=
+    let pivot := match op with CLt | CLe => snd e | CGt | CGe => fst e end in
+    match cmp_nodes op pivot other with
+    | Some s => Some (AAnd first s, match op with CLt | CLe => (fst e, other) | CGt | CGe => (other, snd e) end)
+    | None => None
+    end.
+
+  Inductive recipe :=
+  | RLit (b : bool)
+  | RCmp (op : cmpop) (l r : node V)
+  | RChain (first : recipe) (op : cmpop) (other : node V).
+
+  (* the object the operators return, with the ends it remembers *)
+  Fixpoint denote (r : recipe) : option (assertion * option (node V * node V)) :=
+    match r with
+    | RLit b => Some (ALit b, None)
+    | RCmp op x y => match cmp_nodes op x y with Some a => Some (a, ends_of a) | None => None end
+    | RChain f op o =>
+        match denote f with
+        | Some (a, Some e) => match chain a e op o with Some (t, e') => Some (t, Some e') | None => None end
+        | _ => None
+        end
+    end.
+
+  (* LEGACY (before 33cdc7f, kept as the record of finding chain-3-links): only ComparisonAssertion had the
+     operators; for a CompoundAssertion Python fell back to the reflected operator of `other`, which built a
+     comparison of the chain's TRUTH VALUE with `other` *)
+  Definition chain_legacy (first : assertion) (op : cmpop) (other : node V) : option assertion :=
     match first with
     | ALt l g | ALe l g =>
-        (* ComparisonAssertion.__lt__: CompoundAssertion(self, self._right < other); __gt__: self._left > other *)
         let pivot := match op with CLt | CLe => g | CGt | CGe => l end in
         option_map (AAnd first) (cmp_nodes op pivot other)
     | AAnd _ _ =>
-        (* CompoundAssertion defines no comparison: Python calls the reflected method of `other` *)
         if arith_like other then
           Some (match op with
                 | CLt => ALowB true first other
@@ -143,41 +175,11 @@ Section Gate.
     | _ => None
     end.
 
-  Inductive recipe :=
-  | RLit (b : bool)
-  | RCmp (op : cmpop) (l r : node V)
-  | RChain (first : recipe) (op : cmpop) (other : node V).
-
-  Fixpoint denote (r : recipe) : option assertion :=
+  Fixpoint denote_legacy (r : recipe) : option assertion :=
     match r with
     | RLit b => Some (ALit b)
     | RCmp op x y => cmp_nodes op x y
-    | RChain f op o => match denote f with Some a => chain a op o | None => None end
-    end.
-
-  (* PREPARED for proposed_fixes/C03-chain-further (NOT the current code): every assertion object remembers
-     the lowest and the greatest operand of its chain, and a CompoundAssertion can be compared again:
-     < / <= put the new operand above the greatest, > / >= below the lowest *)
-  Definition ends_of (a : assertion) : option (node V * node V) :=
-    match a with ALt l g | ALe l g => Some (l, g) | _ => None end.
-
-  Definition chain_fixed (first : assertion) (e : node V * node V) (op : cmpop) (other : node V)
-    : option (assertion * (node V * node V)) :=
-    let pivot := match op with CLt | CLe => snd e | CGt | CGe => fst e end in
-    match cmp_nodes op pivot other with
-    | Some s => Some (AAnd first s, match op with CLt | CLe => (fst e, other) | CGt | CGe => (other, snd e) end)
-    | None => None
-    end.
-
-  Fixpoint denote_fixed (r : recipe) : option (assertion * option (node V * node V)) :=
-    match r with
-    | RLit b => Some (ALit b, None)
-    | RCmp op x y => match cmp_nodes op x y with Some a => Some (a, ends_of a) | None => None end
-    | RChain f op o =>
-        match denote_fixed f with
-        | Some (a, Some e) => match chain_fixed a e op o with Some (t, e') => Some (t, Some e') | None => None end
-        | _ => None
-        end
+    | RChain f op o => match denote_legacy f with Some a => chain_legacy a op o | None => None end
     end.
 
   (* add_assertion: `True` is dropped, everything else is appended *)
@@ -423,7 +425,8 @@ Definition opt_assertion_eqb (a b : option (assertion float)) : bool :=
 Record attach := {
   at_level : path;
   at_recipe : recipe float;
-  at_built : option (assertion float)
+  at_built : option (assertion float);
+  at_ends : option (node float * node float)    (* `_left`, `_right` of the object returned, when it has both *)
 }.
 
 (* an observed outcome: the verdict and whether the exception was an exc.FitException *)
@@ -441,13 +444,25 @@ Record case := {
 }.
 
 Definition fdenote := denote float PrimFloat.ltb PrimFloat.leb.
-Definition fdenote_fixed (r : recipe float) := option_map fst (denote_fixed float PrimFloat.ltb PrimFloat.leb r).
+Definition fdenote_legacy := denote_legacy float PrimFloat.ltb PrimFloat.leb.
 Definition frun := run float fbin fbin_ok PrimFloat.ltb PrimFloat.leb fof_bool.
 Definition frun_paths := run_paths float fbin fbin_ok PrimFloat.ltb PrimFloat.leb fof_bool.
 
-(* the operators built the object the model says (chain_fix: the variant prepared for proposed_fixes/C03-chain-further) *)
-Definition attach_ok_v (chain_fix : bool) (a : attach) : bool :=
-  opt_assertion_eqb (if chain_fix then fdenote_fixed (at_recipe a) else fdenote (at_recipe a)) (at_built a).
+Definition ends_eqb (a b : option (node float * node float)) : bool :=
+  match a, b with
+  | Some (l, g), Some (l', g') => node_eqb l l' && node_eqb g g'
+  | None, None => true
+  | _, _ => false
+  end.
+
+(* the operators built the object the model says, remembering the ends the model says
+   (legacy: the model of the code before 33cdc7f, kept for the record; ends were not stored then) *)
+Definition attach_ok_v (legacy : bool) (a : attach) : bool :=
+  if legacy then opt_assertion_eqb (fdenote_legacy (at_recipe a)) (at_built a)
+  else match fdenote (at_recipe a) with
+       | Some (t, e) => opt_assertion_eqb (Some t) (at_built a) && ends_eqb e (at_ends a)
+       | None => opt_assertion_eqb None (at_built a)
+       end.
 Definition attach_ok := attach_ok_v false.
 
 (* add_assertion put it on the level it was called on, in call order *)
@@ -464,8 +479,8 @@ Definition levels_agree (atts : list attach) (lv : levels float) : bool :=
 Definition obs_ok (m : fverdict) (o : obs) : bool :=
   verdict_eqb m (o_v o) && Bool.eqb (is_fit float m) (o_fit o).
 
-Definition check_case_v (chain_fix : bool) (c : case) : bool :=
-  forallb (attach_ok_v chain_fix) (c_attach c)
+Definition check_case_v (legacy : bool) (c : case) : bool :=
+  forallb (attach_ok_v legacy) (c_attach c)
   && levels_agree (c_attach c) (c_levels c)
   && obs_ok (frun false (c_lims c) (c_levels c) (c_tree c) (c_vec c)) (c_strict c)
   && obs_ok (frun true (c_lims c) (c_levels c) (c_tree c) (c_vec c)) (c_ignored c)
@@ -477,5 +492,5 @@ Definition check_case_v (chain_fix : bool) (c : case) : bool :=
 
 (* the code as it is *)
 Definition check_case := check_case_v false.
-(* the code after proposed_fixes/C03-chain-further *)
-Definition check_case_chain_fix := check_case_v true.
+(* the code before 33cdc7f (finding chain-3-links) *)
+Definition check_case_legacy := check_case_v true.
